@@ -75,10 +75,20 @@ def kwargs(state):
     return kw
 
 
-def build(fam, kw):
+def build(fam, kw, bystander=True):
+    """the solver of a campaign state.  It is never the only, nor the most recently constructed, solver of its class
+    in the interpreter: a bystander with other parameter values is constructed (and dropped) after it, so that
+    state shared between instances shows up in every scan (a refused bystander is simply not there)."""
     with contextlib.redirect_stdout(io.StringIO()), warnings.catch_warnings():
         warnings.simplefilter("ignore")
-        return cls_of(fam)(**kw)
+        obj = cls_of(fam)(**kw)
+        if bystander:
+            other = {k: (v * 1.37 if isinstance(v, float) and k not in ("geometry",) else v) for k, v in kw.items()}
+            try:
+                cls_of(fam)(**other)
+            except Exception:
+                pass
+        return obj
 
 
 def request(fam, kw, t, n=5):
